@@ -3,7 +3,8 @@
 H-monitor: the model itself is the probe. A harness model records every input it receives and answers
 with frames of fresh unique ids (type, channel, step); the sequence of recorded inputs and the returned
 rollout are compared with a sliding-window reference over the ids. Second family: random non-symmetric
-linear maps of the window compared with n explicit applications. Recorder on ml.autoregressive_step too."""
+linear maps of the window compared with n explicit applications. Recorder on ml.autoregressive_step too. Variants: state
+carried in aux_data, NumPy-backed input, int32 history with non-integer answers (ids compared exactly), jit rollout."""
 from __future__ import annotations
 
 import numpy as np
